@@ -18,6 +18,7 @@ func c08Leave(r *rng, id string) {
 		return
 	}
 	cl.net.latMin, cl.net.latMax = 0, 20*time.Millisecond
+	mon := cl.startMonitor()
 	cl.joinAll(100 * time.Millisecond)
 	time.Sleep(4 * time.Second)
 	lv := cl.nodes[1+r.intn(nn-1)]
@@ -83,9 +84,10 @@ func c08Leave(r *rng, id string) {
 			}
 		}
 	}
+	inv := mon.verdict(cl.nodes)
 	cl.shutdownAll()
-	emit("C08 leave id=%s n=%d scenario=%s res1=%s res2=%s sentatreturn=%d left=%d failed=%d listed=%d",
-		id, nn, scenario, res1, res2, sentAtReturn, recordedLeft, recordedOther, stillListed)
+	emit("C08 leave id=%s n=%d scenario=%s res1=%s res2=%s sentatreturn=%d left=%d failed=%d listed=%d inv=%s claims=%d",
+		id, nn, scenario, res1, res2, sentAtReturn, recordedLeft, recordedOther, stillListed, inv, mon.total)
 }
 
 func TestC08Sim(t *testing.T) {
